@@ -195,27 +195,40 @@ def cov_traces(ctx, count):
         x, u = rn(n) * sx, rn(m)
         amp = 0.0 if linear else 0.3 * sx
 
+        # time-varying variant: A(t) = A + t A1, C(t) = C + t C1 with the step's time stamp passed explicitly (t = 0 or 3)
+        # to a filter whose model object has already been used (its own clock is elsewhere)
+        tv = linear and not far and it % 4 == 1
+        tt = None if not tv else torch.tensor([0, 0, 3][it % 3])
+        A1, C1 = (rn(n, n) * 0.3, rn(p, n) * 0.3) if tv else (torch.zeros(n, n, dtype=torch.float64), torch.zeros(p, n, dtype=torch.float64))
+        A0, C0 = A, C
+
         class Sys(pp.module.NLS):
             def state_transition(self, state, input, t=None):
-                return pp.bmv(A, state) + pp.bmv(B, input) + c1 + amp * torch.sin(state / sx)
+                tf = 0.0 if (t is None or not tv) else t.to(state.dtype).reshape(-1)[0]
+                return pp.bmv(A0 + tf * A1, state) + pp.bmv(B, input) + c1 + amp * torch.sin(state / sx)
 
             def observation(self, state, input, t=None):
-                return pp.bmv(C, state) + pp.bmv(D, input) + c2 + amp * torch.cos(pp.bmv(Cn, state) / sx)
+                tf = 0.0 if (t is None or not tv) else t.to(state.dtype).reshape(-1)[0]
+                return pp.bmv(C0 + tf * C1, state) + pp.bmv(D, input) + c2 + amp * torch.cos(pp.bmv(Cn, state) / sx)
 
         model = Sys()
+        if tv:
+            for _ in range(2):
+                model(x, u)                 # the model object was used before (e.g. to simulate): systime = 2
+            A, C = A0 + float(tt) * A1, C0 + float(tt) * C1    # what the step at time tt is about (reference recursion)
         xt = model.state_transition(x + rn(n) * sx, u)
         y = model.observation(xt, u) + rn(p) * math.sqrt(10 ** eR)
         # scale of the round-off: |P-| times the condition of the innovation covariance (the gain is S^-1-limited);
         # Jacobians by the harness' own autograd call at the prior mean
         from torch.autograd.functional import jacobian
-        Aj = jacobian(lambda s_: model.state_transition(s_, u), x)
-        Cj = jacobian(lambda s_: model.observation(s_, u), x)
+        Aj = jacobian(lambda s_: model.state_transition(s_, u, t=tt), x)
+        Cj = jacobian(lambda s_: model.observation(s_, u, t=tt), x)
         Pm = Aj @ P @ Aj.mT + Q
         S = Cj @ Pm @ Cj.mT + R
         cond = float(torch.linalg.cond(S)) if p > 1 else 1.0
         scale = float(Pm.abs().max()) * cond
         cfg = {"kind": "cov", "n": n, "m": m, "p": p, "linear": linear, "eP": round(eP), "eQ": round(eQ),
-               "eR": round(eR), "it": it}
+               "eR": round(eR), "it": it, "tv": bool(tv)}
         ref = None
         if linear:
             xr, Pr, Pmr, Sr = kalman_reference(A, B, C, D, c1, c2, Q, R, x, P, u, y)
@@ -225,6 +238,9 @@ def cov_traces(ctx, count):
         calls = [("EKF", None)] + [("UKF", k) for k in ks] + [("PF", None)]
         if far:
             calls = [("PF", None)]
+        if tv:
+            calls = [("EKF", None), ("UKF", 1)]
+        tkw = {} if tt is None else {"t": tt}
         ev = []
         for name, k in calls:
             e = {"act": "cov", "filter": name, "k": -99 if k is None else k, "judge_cov": k is None or k >= 0,
@@ -232,9 +248,9 @@ def cov_traces(ctx, count):
             try:
                 torch.manual_seed(ctx.seed * 7919 + it)
                 if name == "EKF":
-                    xo, Po = pp.module.EKF(model)(x, y, u, P, Q, R)
+                    xo, Po = pp.module.EKF(model)(x, y, u, P, Q, R, **tkw)
                 elif name == "UKF":
-                    xo, Po = pp.module.UKF(model)(x, y, u, P, Q, R, k=k)
+                    xo, Po = pp.module.UKF(model)(x, y, u, P, Q, R, k=k, **tkw)
                 else:
                     xo, Po = pp.module.PF(model, particles=300)(x, y, u, P, Q, R)
             except Exception as ex:
